@@ -84,12 +84,14 @@ Ltac unfold_model :=
        crash_free forallb exhibits dev_side is_carver entry_eqb has_quant_features has_ordinal_features
        c_x_frame k_cast c_cols c_y_series c_y_nan k_idx_len c_idx c_idx_len y_checked
        c_xdev_frame k_cast_dev c_dev_cols c_ydev_series c_ydev_nan c_dev_idx
+       ydev_checked c_ydev_series' c_ydev_nan' c_dev_idx_len c_dev_idx' c_ydev_classes k_ydev_given k_ydev_no_str
        c_y_given c_y_01 c_two_classes c_many_classes k_y_sortable c_y_no_str c_sort_by c_no_overlap
        k_x_usable k_x_frame k_cols c_quant_numeric c_ordinal_known c_multiclass_inner_orders
        x_is_frame x_is_none y_given y_is_series y_has_nan index_matches index_same_len columns_present
        dev_given xdev_is_frame ydev_is_series ydev_has_nan dev_index_matches dev_columns_present
        n_classes y_is_01 y_has_str y_all_str feature_overlap quant_has_str ordinal_unknown_value
-       sort_by_ok has_ordinal fitted state fitted_at] in *.
+       sort_by_ok has_ordinal ydev_given dev_index_same_len ydev_classes_ok ydev_has_str
+       fitted state fitted_at] in *.
 
 (* walks down the ifs of a run: the failing branch of a Check closes by reflexivity, the failing
    branch of a Crash and the all-passed end contradict the hypotheses *)
@@ -113,7 +115,7 @@ Lemma reject_guarded :
 Proof.
   intros S w c e m o i Hg Hf Hex Hcf.
   destruct o as [f s]. cbn [fitted] in Hf, Hex, Hcf. subst f.
-  destruct i as [xf xn yg ys yn im il cp dg dxf dys dyn dim dcp n y01 yhs yas fo qs ou sb ho].
+  destruct i as [xf xn yg ys yn im il cp dg dxf dys dyn dim dcp n y01 yhs yas fo qs ou sb ho dyg dil dco dhs].
   destruct e.
   - (* init *)
     destruct c, m; cbv in Hg; try discriminate Hg; clear Hg;
@@ -263,6 +265,15 @@ Lemma crash_gaps_refuted :
              result_eqb (fst (run_call (csteps Current c e) (mkObj false 0) i)) ROther)
           crash_gap_witnesses = true /\ length crash_gap_witnesses = 9.
 Proof. split; vm_compute; reflexivity. Qed.
+
+(* the dev-target variants repaired by 9e3db28 are rejected with AssertionError *)
+Lemma dev_target_rejected :
+  forallb (fun t => let '(c, e, m, i) := t in
+             guarded c e m && exhibits c e m false i &&
+             crash_free (csteps Current c e) false i &&
+             result_eqb (fst (run_call (csteps Current c e) (mkObj false 0) i)) RAssert)
+          dev_target_witnesses = true.
+Proof. vm_compute. reflexivity. Qed.
 
 (* ------------------------------------------------------------------------------------------ *)
 (* historical records: the tree BEFORE the fix commits                                          *)
